@@ -1203,6 +1203,13 @@ func genC11(w *bufio.Writer, seed int64, n int, tier string) {
 			es = c11GenEntries(r, 60+r.Intn(80), 1500, 4000)
 			ncorrupt = 1
 		default: // many entries, several blocks
+			if ci%40 == 39 {
+				// more than 16 data blocks: the index block gets a second restart point
+				// (seeks that land in the last block before it, then scan on)
+				es = c11GenEntries(r, 340+r.Intn(60), 3600, 4400)
+				ncorrupt = 0
+				break
+			}
 			cnt := 1200 + r.Intn(1200)
 			if tier == "thorough" && r.Intn(3) == 0 {
 				cnt = 4000 + r.Intn(1001)
